@@ -20,10 +20,15 @@ type Acc struct {
 	Obj  unsafe.Pointer
 	Path string
 	Idx  int // evaluated index, -1 = unknown / whole object
+	// At: made through sync/atomic.  Two atomic accesses never race; an atomic access and a plain
+	// WRITE of the same location do (a plain read against an atomic store is left to the auxiliary
+	// free-running -race pass, since the kind of the atomic operation is not tracked).
+	At bool
 }
 
-func R(obj unsafe.Pointer, path string, idx int) Acc { return Acc{false, obj, path, idx} }
-func W(obj unsafe.Pointer, path string, idx int) Acc { return Acc{true, obj, path, idx} }
+func R(obj unsafe.Pointer, path string, idx int) Acc { return Acc{false, obj, path, idx, false} }
+func W(obj unsafe.Pointer, path string, idx int) Acc { return Acc{true, obj, path, idx, false} }
+func A(obj unsafe.Pointer, path string, idx int) Acc { return Acc{false, obj, path, idx, true} }
 
 // MutexState is the scheduler-visible state of a vsync mutex.
 type MutexState struct {
@@ -60,10 +65,10 @@ type Race struct {
 }
 
 type Point struct {
-	Enabled []int // canonical order: running thread first if enabled, then ascending ids
-	Running int   // thread that ran last (-1 at the start)
+	Enabled        []int // canonical order: running thread first if enabled, then ascending ids
+	Running        int   // thread that ran last (-1 at the start)
 	RunningEnabled bool
-	Chosen  int // index into Enabled
+	Chosen         int // index into Enabled
 }
 
 type Exec struct {
@@ -110,10 +115,28 @@ func park(p Pending) {
 }
 
 // P announces the accesses of the statement about to execute and parks.
+// SkipLocal, when set before Run, makes a statement that announces no shared access run on without
+// parking: such a statement commutes with every step of every other thread, so the schedules that
+// differ only in where it is placed have the same observable outcome (a partial-order reduction).
+// It is what makes scenarios with thousands of local steps per operation explorable.  Accesses made
+// through local aliases are invisible to the syntactic instrumenter in either mode.
+var SkipLocal bool
+
+// localSteps counts the statements skipped since the last park (runaway guard).
+var localSteps int
+
 func P(site int, accs ...Acc) {
 	if cur == nil || running < 0 {
 		return
 	}
+	if SkipLocal && len(accs) == 0 {
+		localSteps++
+		if localSteps > 50_000_000 {
+			panic("verifrt: 5e7 local statements without a shared access (loop does not terminate?)")
+		}
+		return
+	}
+	localSteps = 0
 	for _, a := range accs {
 		if a.W {
 			cur.Writes = append(cur.Writes, a)
